@@ -19,20 +19,27 @@
 
 extern "C" void vf_main() {
   for (int i = 0; i < VF_N; ++i) {
-    g_prefer0[i] = vf_nondet_bool();
     g_start_parking[i] = true;   // idle pool: every worker is inside enterSleep .. exitSleep (parked or about to call the futex)
   }
   k_build();
+  K_SPAWN_WORKERS();
+  // symbolic inputs are drawn after the spawns (the native replay runtime synchronises inputs with the
+  // schedule only once threads exist); a worker that starts before its hint is drawn uses `false`,
+  // which is one of the two values anyway
+  for (int i = 0; i < VF_N; ++i) {
+    g_prefer0[i] = vf_nondet_bool();
+  }
+#if VF_LIVE_CENTRAL
   // the hint may be stale-true on an idle pool (a producer's delayed store); false negatives need a
   // concurrent producer and are not part of this scenario
   k_hint_store(vf_nondet_bool());
+#endif
   int32_t count = 1;
-#if VF_PATH == 3 || VF_PATH == 4
+#if (VF_PATH == 3 || VF_PATH == 4) && VF_MAXCOUNT > 1
   count = (int32_t)vf_range_u32(VF_MINCOUNT, VF_MAXCOUNT);
 #elif VF_PATH == 5
   count = 2;
 #endif
-  K_SPAWN_WORKERS();
 
   { VfAtomic a; g_inflight = 1; g_submitted = (uint32_t)count; }
 #if VF_PATH == 1
